@@ -65,6 +65,9 @@ use core::pin::Pin;
 use futures_util::StreamExt;
 use futures_util::stream::FuturesUnordered;
 use octseq::Octets;
+#[cfg(feature = "verif-hooks")]
+use super::verif_rand::{random, random_range};
+#[cfg(not(feature = "verif-hooks"))]
 use rand::{random, random_range};
 use tokio::sync::{mpsc, oneshot};
 use tokio::time::{Duration, Instant, sleep_until};
